@@ -70,14 +70,19 @@ def showReadOut : Option Segmenter → String
   | none => "nil"
   | some s => s!"{s.firstIndex}-{s.lastIndex}:{showORange (s.range? s.firstIndex)}:{showORange (s.range? s.lastIndex)}"
 
+/-- output token: `<n>` a mapper with initial block n, `s<n>` a store -/
+def parseOut (s : String) : Nat × Bool :=
+  if s.startsWith "s" then (nat! (s.drop 1).toString, true) else (nat! s, false)
+
 def showOutcome (env : Env) (m : Mods) (o : Outcome) : String :=
   let d := o.d
   let p := o.plan
+  -- first store stage: the ancestor stores (one layer), or the output store alone when there is none
   let storeInits := m.stores.map (mapInit env.fsb)
-  let stageInit := (lowestOf storeInits).getD 0
   let outInit := mapInit env.fsb m.out
-  let ms := ";".intercalate (storeInits.map fun i => showUnits (p.units .store i))
-  s!"start={d.start} handoff={d.handoff} gate={d.gate} stop={d.stop} cur={showOCursor d.cursor} undo={showUndo o.undo} rp={d.rpath.name} hp={d.hpath.name} | stores={showORange p.buildStores} write={showORange p.writeExecOut} read={showORange p.readExecOut} linear={showORange p.linear} | bp={showSegmenter p.backprocessSegmenter} SS={showUnits (p.units .store stageInit)} MS={if ms.isEmpty then "-" else ms} MP={showUnits (p.units .map outInit)} RD={showReadOut (p.readOutSegmenter outInit)}"
+  let stageInit := (lowestOf (if storeInits.isEmpty then (m.reqStores.map (mapInit env.fsb)) else storeInits)).getD 0
+  let ms := ";".intercalate ((m.reqStores.map (mapInit env.fsb)).map fun i => showUnits (p.units .store i))
+  s!"start={d.start} handoff={d.handoff} gate={d.gate} stop={d.stop} cur={showOCursor d.cursor} undo={showUndo o.undo} rp={d.rpath.name} hp={d.hpath.name} | stores={showORange p.buildStores} write={showORange p.writeExecOut} read={showORange p.readExecOut} linear={showORange p.linear} | bp={showSegmenter p.backprocessSegmenter} SS={showUnits (p.units .store stageInit)} MS={if ms.isEmpty then "-" else ms} MP={if m.outIsStore then "0" else showUnits (p.units .map outInit)} RD={if m.outIsStore then "nil" else showReadOut (p.readOutSegmenter outInit)}"
 
 /-- what the real `Tier1Service.blocks` lets the harness observe (slice T1) -/
 def showTier1 (o : Outcome) : String :=
@@ -94,14 +99,14 @@ def step (line : String) : String :=
   match words line with
   | "T1" :: mode :: seg :: fsb :: start :: stop :: final :: head :: out :: stores :: cur :: res :: _ =>
     let env : Env := ⟨nat! seg, nat! fsb, optNat final, optNat head, parseResolver res⟩
-    let m : Mods := ⟨parseStores stores, nat! out⟩
+    let m : Mods := ⟨parseStores stores, (parseOut out).1, (parseOut out).2⟩
     let req : Request := ⟨start.toInt?.getD 0, parseCursor cur, nat! stop, mode == "p"⟩
     match tier1 env m req with
     | .error e => s!"err={e.name}"
     | .ok o => showTier1 o
   | "P" :: mode :: seg :: fsb :: start :: stop :: final :: head :: out :: stores :: cur :: res :: _ =>
     let env : Env := ⟨nat! seg, nat! fsb, optNat final, optNat head, parseResolver res⟩
-    let m : Mods := ⟨parseStores stores, nat! out⟩
+    let m : Mods := ⟨parseStores stores, (parseOut out).1, (parseOut out).2⟩
     let req : Request := ⟨start.toInt?.getD 0, parseCursor cur, nat! stop, mode == "p"⟩
     match tier1 env m req with
     | .error e => s!"err={e.name}"
